@@ -1,9 +1,10 @@
 // Harness for the application-side stream reader std/engine/face/stream_face.go (C11, second half):
 // a real StreamFace dials a Unix socket served by the harness, which writes the generated stream in scripted chunks.
 // Trace: CASE/S/R/B lines as in stream_test.go, then
-//   I <eof|ueof|other> <bytes written>      the error handed to onError when the loop stopped
-//   F <len>:<md5/8> ...                     packets handed to onPkt
-//   END
+//
+//	I <eof|ueof|other> <bytes written>      the error handed to onError when the loop stopped
+//	F <len>:<md5/8> ...                     packets handed to onPkt
+//	END
 package facelp
 
 import (
